@@ -2,7 +2,8 @@
 """store_mutant.py <id> <worktree> <breaks> <detected_by comma list> <needs text>  -- copies a confirmed external seeded change into /verif/seeded/ext-<id>/"""
 import sys, os, json, shutil, subprocess, re
 id_, wt, breaks, det, needs = sys.argv[1:6]
-d = '/verif/seeded/ext-%s' % id_
+name = id_ if id_.startswith('ext') else 'ext-' + id_
+d = '/verif/seeded/%s' % name
 os.makedirs(d, exist_ok=True)
 shutil.copy(os.path.join(wt, 'mutant.diff'), os.path.join(d, 'patch.diff'))
 demo = os.path.join(wt, 'tests/h2-tests/tests/mutant_demo.rs')
@@ -15,12 +16,12 @@ if os.path.exists(vl):
         if l.startswith('RESULT'):
             res = l.strip()
 json.dump({
-    "id": "ext-" + id_,
+    "id": name,
     "breaks": breaks,
     "origin": "written by an independent sub-agent that was given only the property text and a scratch worktree",
     "needs_to_manifest": needs,
     "demonstration": "mutant_demo.rs (goes to tests/h2-tests/tests/mutant_demo.rs; `cargo test --offline -p h2-tests --test mutant_demo`): fails with the patch, passes without",
-    "what_i_ran": "tools/verify_mutant.sh <worktree> (demo with/without the change, then the whole workspace suite incl. hammer with the change): " + res + " ; tools/try_patch.sh seeded/ext-%s/patch.diff -- %s" % (id_, det.replace(',', ' ')),
+    "what_i_ran": "tools/verify_mutant.sh <worktree> (demo with/without the change, then the whole workspace suite incl. hammer with the change): " + res + " ; tools/try_patch.sh seeded/%s/patch.diff -- %s" % (name, det.replace(',', ' ')),
     "detected_by": [x for x in det.split(',') if x],
 }, open(os.path.join(d, 'meta.json'), 'w'), indent=1)
 print('stored', d)
